@@ -286,7 +286,7 @@ func (m *Model) sweep(r *ev.Report, v int, withMulEverywhere bool) {
 		total *= n
 	}
 
-	opsAll := opsFor(v, true)
+	opsAll := opsFor(v, m.mulApplicable(r))
 	opsNoMul := opsFor(v, false)
 	sentinel := map[int]bool{0: true, n / 2: true, n - 1: true}
 	globals := secp256k1.VerifAllGlobals()
@@ -374,7 +374,7 @@ func (m *Model) bfs(r *ev.Report, v int, withMul bool) (int, int, int) {
 		init[i] = RawOf(secp256k1.NewElement())
 	}
 
-	ops := opsFor(v, withMul)
+	ops := opsFor(v, withMul && m.mulApplicable(r))
 	k0, _ := m.packState(v, init)
 	seen := map[uint64]bool{k0: true}
 	frontier := []State{init}
